@@ -1518,7 +1518,16 @@ func genTotalityCase(prop, tier string, r *rand.Rand) *Case {
 			if tier == "thorough" && r.IntN(3) == 0 {
 				n = 2500000
 			}
-			b = append([]byte("0 HEAD\n"), bytes.Repeat([]byte(pick(r, []string{"\n", "\r\n", "\r"})), n)...)
+			head := "0 HEAD\n"
+			if r.IntN(2) == 0 {
+				// the file is refused (or the documented panic is raised) at
+				// its second line, with a lot of input still to come
+				head += pick(r, []string{"3 NOTE too deep\n", "garbage\n", "1 HUSB @I1@\n", "1\n"})
+				if n > 50000 {
+					n = 50000
+				}
+			}
+			b = append([]byte(head), bytes.Repeat([]byte(pick(r, []string{"\n", "\r\n", "\r", "1 NOTE x\n"})), n)...)
 			b = append(b, "0 TRLR\n"...)
 			// (with AllowMultiLine every blank line is appended to the value
 			// of the line before it, one string concatenation each: quadratic
